@@ -466,6 +466,9 @@ def gen_situation(rng, vt, pop, pids, hids, year, p_null, p_input, with_groups=T
             h["parents"] = par
         if chi or rng.random() < 0.3:
             h["children"] = chi
+        hea = [pids[j] for j in range(len(pids)) if pop["ids"][j] == g and pop["roles"][j] == 2]
+        if hea or rng.random() < 0.2:
+            h["heads"] = hea
         households[hid] = h
     nulls = 0
     for name, pk in cells:
@@ -724,6 +727,9 @@ def full_inputs(rng, vt, pop, pids, hids, year):
             h["parents"] = par
         if chi:
             h["children"] = chi
+        hea = [pids[j] for j in range(len(pids)) if pop["ids"][j] == g and pop["roles"][j] == 2]
+        if hea:
+            h["heads"] = hea
         households[hid] = h
     for name, pk in gen_cells(rng, vt, year, dense=0.5):
         x = vt[name]
@@ -1137,7 +1143,7 @@ def cids(ids):
 def eligible(entry, flat, vt):
     """the request only mentions harness/rules.py variables: the model can compute the values itself"""
     for e in flat:
-        if e[0] == "households" and e[2] in ("parents", "children"):
+        if e[0] == "households" and e[2] in ("parents", "children", "heads"):
             continue
         if e[2] in vt and vt[e[2]]["rule"] is None:
             return False
